@@ -27,8 +27,8 @@
     The reference-count races INSIDE the calls (every schedule of fetch_add / fetch_sub / on_close / clear over any number
     of threads) are the [C05_sched_*] theorems about Registry/Micro.v. *)
 From Coq Require Import List NArith Bool Arith.
-From TV Require Import Registry.Model Registry.Inv Registry.Run Registry.C05Proofs.
-From TV Require Registry.Micro Registry.MicroProofs.
+From TV Require Import Registry.Model Registry.Inv Registry.Run Registry.C05Proofs Registry.Single.
+From TV Require Registry.Micro Registry.MicroProofs Registry.MicroReal Registry.MicroRealProofs.
 From TVGen Require Gen_registry.
 Import ListNotations.
 Local Open Scope nat_scope.
@@ -170,6 +170,12 @@ Theorem C05_no_panic : forall layers g h, Config_ok layers -> WellFormed layers 
 Proof. exact no_panic_history. Qed.
 Print Assumptions C05_no_panic.
 
+(** A syntactic sufficient condition for OwnDefault: one collector installed as the global default and no scoped default
+    anywhere in the history (no hypothesis on well-formedness or on the configuration is needed). *)
+Theorem C05_own_default_single_collector : forall layers i0 h, forallb no_setdef h = true -> OwnDefault layers (Some i0) h.
+Proof. exact single_collector_own_default. Qed.
+Print Assumptions C05_own_default_single_collector.
+
 (** Tie to the source text: the constants and function shapes read by translators/registry_shapes.py on every run are
     the ones Registry/Model.v mirrors (see Registry.C05Proofs.model_mirrors_source for which model definition uses which). *)
 Theorem C05_model_mirrors_source :
@@ -241,3 +247,79 @@ Theorem C05_sched_can_quiesce : forall ops : list Micro.mop,
   exists ops', forall t, Micro.m_task (Micro.mrun (ops ++ ops')) t = None.
 Proof. exact MicroProofs.micro_can_quiesce. Qed.
 Print Assumptions C05_sched_can_quiesce.
+
+(* ------------------------------------------------------------------------------------------------------------------
+   Schedules, faithfully.  Registry/MicroReal.v refines Micro.v by what the forced-schedule runs against the real code
+   showed to matter: Registry::try_close holds a sharded_slab guard on the slot until it RETURNS (RRet is a step of its own
+   after the fetch_sub RDrop / RRel); spans.clear only MARKS a slot while another thread holds a guard on it, and the
+   storage is cleared (parent reference released: the cascade) by whichever thread drops the last guard, nested inside that
+   thread's own Layered::try_close frames; a CloseGuard that runs nested does not clear (CLOSE_COUNT <> 1) unless
+   `Clear for DataInner` resets the count (the parameter [fixed] = fixes/F51.patch).  [rrun fixed ops]: any schedule. *)
+
+(** safety holds with and without the repair, under every schedule *)
+Theorem C05_sched_real_no_bad : forall (fixed : bool) (ops : list MicroReal.rop), MicroReal.r_bad (MicroReal.rrun fixed ops) = false.
+Proof. exact MicroRealProofs.real_no_bad. Qed.
+Print Assumptions C05_sched_real_no_bad.
+
+Theorem C05_sched_real_at_most_once : forall fixed ops s, MicroReal.r_closed (MicroReal.rrun fixed ops) s <= 1.
+Proof. exact MicroRealProofs.real_at_most_once. Qed.
+Print Assumptions C05_sched_real_at_most_once.
+
+Theorem C05_sched_real_refcount : forall fixed ops s, let st := MicroReal.rrun fixed ops in s < MicroReal.r_count st ->
+  MicroReal.r_refs st s = MicroReal.rheld_n st s + MicroReal.rkids_n st s + MicroReal.rrel_n st s /\
+  MicroReal.rguard_n st s = MicroReal.rret1_n st s + MicroReal.rret0_n st s /\
+  (MicroReal.r_marked st s = true -> MicroReal.r_refs st s = 0 /\ MicroReal.r_closed st s = 1) /\
+  (MicroReal.r_cleared st s = true -> MicroReal.r_marked st s = true /\ MicroReal.rguard_n st s = 0).
+Proof. exact MicroRealProofs.real_refcount. Qed.
+Print Assumptions C05_sched_real_refcount.
+
+Theorem C05_sched_real_not_early_children_first : forall fixed ops s, let st := MicroReal.rrun fixed ops in
+  MicroReal.r_closed st s = 1 ->
+  MicroReal.rheld_n st s = 0 /\ MicroReal.rrel_n st s = 0 /\ MicroReal.r_refs st s = 0 /\
+  (forall c, c < MicroReal.r_count st -> MicroReal.r_parent st c = Some s -> MicroReal.r_closed st c = 1 /\ MicroReal.r_cleared st c = true).
+Proof. exact MicroRealProofs.real_closed_not_early. Qed.
+Print Assumptions C05_sched_real_not_early_children_first.
+
+(** exactly once and gone afterwards, in every quiescent state of every schedule — for the repaired Clear *)
+Theorem C05_sched_real_exactly_once_repaired : forall ops, let st := MicroReal.rrun true ops in MicroReal.rquiescent st = true ->
+  forall s, s < MicroReal.r_count st ->
+    (MicroReal.r_closed st s = 1 <-> MicroReal.rheld_n st s = 0 /\ MicroReal.rkids_n st s = 0) /\
+    (MicroReal.r_closed st s = 1 <-> MicroReal.r_marked st s = true) /\
+    MicroReal.r_marked st s = MicroReal.r_cleared st s.
+Proof. exact MicroRealProofs.real_quiescent_exactly_once. Qed.
+Print Assumptions C05_sched_real_exactly_once_repaired.
+
+(** ... which is the code under check as soon as the translator reads the repaired variant out of sharded.rs *)
+Theorem C05_sched_source_exactly_once : forall ops,
+  Gen_registry.clear_resets_close_count = true -> MicroReal.rquiescent (source_run ops) = true ->
+  forall s, s < MicroReal.r_count (source_run ops) ->
+    (MicroReal.r_closed (source_run ops) s = 1 <-> MicroReal.rheld_n (source_run ops) s = 0 /\ MicroReal.rkids_n (source_run ops) s = 0) /\
+    (MicroReal.r_closed (source_run ops) s = 1 <-> MicroReal.r_marked (source_run ops) s = true) /\
+    MicroReal.r_marked (source_run ops) s = MicroReal.r_cleared (source_run ops) s.
+Proof. exact source_exactly_once_if_repaired. Qed.
+Print Assumptions C05_sched_source_exactly_once.
+
+Theorem C05_sched_real_can_quiesce : forall fixed ops, exists ops', MicroReal.rquiescent (MicroReal.rrun fixed (ops ++ ops')) = true.
+Proof. exact MicroRealProofs.real_can_quiesce. Qed.
+Print Assumptions C05_sched_real_can_quiesce.
+
+(** Known finding F51 (found by the forced-schedule runs): as the code stands, there is a schedule — G <- P <- C, two
+    threads drop the last two handles of C, the loser of the race is still inside Registry::try_close when the winner clears
+    C — after which every thread is idle, P has been reported closed but is still in the registry (never marked, never
+    cleared), and G, to which nothing refers any more (no handle; its only child was reported closed), is never reported. *)
+Theorem C05_F51_refuted : let st := MicroReal.rrun false MicroReal.f51_schedule in
+  MicroReal.rquiescent st = true /\ MicroReal.r_bad st = false /\
+  MicroReal.r_closed st 1 = 1 /\ MicroReal.r_marked st 1 = false /\ MicroReal.r_cleared st 1 = false /\ MicroReal.r_refs st 1 = 0 /\
+  MicroReal.rheld_n st 0 = 0 /\ MicroReal.rkids_n st 0 = 1 /\ MicroReal.r_refs st 0 = 1 /\ MicroReal.r_closed st 0 = 0 /\
+  MicroReal.r_closed st 2 = 1 /\ MicroReal.r_marked st 2 = true /\ MicroReal.r_cleared st 2 = true.
+Proof. exact MicroRealProofs.real_F51_refuted. Qed.
+Print Assumptions C05_F51_refuted.
+
+(** the same schedule with the repair: all three spans are reported once and removed *)
+Theorem C05_F51_repaired_witness : let st := MicroReal.rrun true MicroReal.f51_schedule in
+  MicroReal.rquiescent st = true /\ MicroReal.r_bad st = false /\
+  (MicroReal.r_closed st 0 = 1 /\ MicroReal.r_marked st 0 = true /\ MicroReal.r_cleared st 0 = true) /\
+  (MicroReal.r_closed st 1 = 1 /\ MicroReal.r_marked st 1 = true /\ MicroReal.r_cleared st 1 = true) /\
+  (MicroReal.r_closed st 2 = 1 /\ MicroReal.r_marked st 2 = true /\ MicroReal.r_cleared st 2 = true).
+Proof. exact MicroRealProofs.real_F51_fixed. Qed.
+Print Assumptions C05_F51_repaired_witness.
